@@ -79,7 +79,7 @@ type c11fake struct {
 }
 
 func (f *c11fake) Do(req *http.Request) (*http.Response, error) {
-	svc := req.URL.Host
+	svc := req.URL.Hostname()
 	if f.readOnly[svc] {
 		f.roHit = append(f.roHit, svc)
 	}
@@ -131,10 +131,11 @@ type c11cfg struct {
 	Free     bool `json:"free_fault_cost"`
 	Bound    int  `json:"bound"`
 	Full     bool `json:"full_menu"`
+	ROAlt    bool `json:"ro_other_kind"`
 }
 
 func (c c11cfg) String() string {
-	return fmt.Sprintf("w%d ro%d disk=%v want%d retries%d free=%v bound%d full=%v", c.Writable, c.ReadOnly, c.Disk, c.Want, c.Retries, c.Free, c.Bound, c.Full)
+	return fmt.Sprintf("w%d ro%d disk=%v want%d retries%d free=%v bound%d full=%v roalt=%v", c.Writable, c.ReadOnly, c.Disk, c.Want, c.Retries, c.Free, c.Bound, c.Full, c.ROAlt)
 }
 
 type c11result struct {
@@ -156,24 +157,36 @@ func c11run(r *vrep.Report, cfg c11cfg) vsched.Stats {
 		}
 		fake = &c11fake{menu: menu, freeCost: cfg.Free, attempts: map[string]int{}, readOnly: map[string]bool{}, hash: hash, size: len(data)}
 		res = c11result{}
-		local := map[string]string{}
-		writable := map[string]string{}
+		// The client is configured through the real service-discovery loader
+		// (LoadKeepServicesFromJSON -> loadKeepServers), so the classification of services as
+		// writable / read-only and disk / proxy (replicasPerService) is part of what is checked.
+		// Read-only services are of BOTH kinds (a read-only disk and a read-only proxy alternate).
+		svcType := "disk"
+		if !cfg.Disk {
+			svcType = "proxy"
+		}
+		var items []string
 		for i := 0; i < cfg.Writable; i++ {
-			uuid := fmt.Sprintf("zzzzz-bi6l4-%015d", i)
-			local[uuid] = fmt.Sprintf("http://w%d", i)
-			writable[uuid] = local[uuid]
+			items = append(items, fmt.Sprintf(`{"uuid":"zzzzz-bi6l4-%015d","service_host":"w%d","service_port":80,"service_ssl_flag":false,"service_type":%q,"read_only":false}`, i, i, svcType))
 		}
 		for i := 0; i < cfg.ReadOnly; i++ {
-			uuid := fmt.Sprintf("zzzzz-bi6l4-%015d", 100+i)
-			local[uuid] = fmt.Sprintf("http://ro%d", i)
+			roType := svcType
+			if cfg.ROAlt {
+				// the read-only service is of the OTHER kind than the writable ones
+				if svcType == "disk" {
+					roType = "proxy"
+				} else {
+					roType = "disk"
+				}
+			}
+			items = append(items, fmt.Sprintf(`{"uuid":"zzzzz-bi6l4-%015d","service_host":"ro%d","service_port":80,"service_ssl_flag":false,"service_type":%q,"read_only":true}`, 100+i, i, roType))
 			fake.readOnly[fmt.Sprintf("ro%d", i)] = true
 		}
 		kc := &KeepClient{Arvados: &arvadosclient.ArvadosClient{ApiToken: "tok"}, Want_replicas: cfg.Want,
 			Retries: cfg.Retries, HTTPClient: fake, RequestID: "req-verif"}
-		if cfg.Disk {
-			kc.replicasPerService = 1
+		if err := kc.LoadKeepServicesFromJSON(`{"items":[` + strings.Join(items, ",") + `]}`); err != nil {
+			panic(err)
 		}
-		kc.SetServiceRoots(local, writable, nil)
 		loc, n, err := kc.PutB(data)
 		res = c11result{loc, n, err, true}
 	}
@@ -339,6 +352,10 @@ func TestVerifC11(t *testing.T) {
 						b = 0 // 8^4 assignments x free completion orders; preemptions only in the thorough tier
 					}
 					cfgs = append(cfgs, c11cfg{Writable: w, ReadOnly: w % 2, Disk: disk, Want: want, Retries: retries, Free: true, Bound: b, Full: thorough || (w == 1)})
+				if w%2 == 1 && retries <= 1 {
+					// same, with the read-only service of the other kind (read-only proxy next to writable disks and vice versa)
+					cfgs = append(cfgs, c11cfg{Writable: w, ReadOnly: 1, Disk: disk, Want: want, Retries: retries, Free: true, Bound: b, Full: thorough, ROAlt: true})
+				}
 				}
 			}
 		}
@@ -358,6 +375,9 @@ func TestVerifC11(t *testing.T) {
 						b = 1
 					}
 					cfgs = append(cfgs, c11cfg{Writable: w, ReadOnly: 1, Disk: disk, Want: want, Retries: retries, Free: false, Bound: b, Full: true})
+				if w == 3 && retries <= 1 {
+					cfgs = append(cfgs, c11cfg{Writable: w, ReadOnly: 1, Disk: disk, Want: want, Retries: retries, Free: false, Bound: b, Full: true, ROAlt: true})
+				}
 				}
 			}
 		}
